@@ -8,7 +8,7 @@ from .. import tlc, local, scopegen, inputs
 
 
 def model(rep, tier, deep=False):
-    """deep: also the two-name model (22.4 M states, about 50 minutes) - run by the thorough tier of C03 only; its configuration checks every invariant of
+    """deep: also the two-name model (22.4 M states, about 50 minutes) - run by the thorough tier of C03 when VERIF_DEEP_MODEL=1 is set; its configuration checks every invariant of
     the renamer model (NoCapture, StaysCompilable, InterfaceKept, Frozen, Preserved), so C04 / C09 / C10 do not repeat it"""
     cfgs = ['MC_Rename_q.cfg'] if (tier == 'quick' or not deep) else ['MC_Rename_q.cfg', 'MC_Rename_2n.cfg']
     for cfg in cfgs:
@@ -183,7 +183,7 @@ def pep709_replay(rep, tier, rng, tag):
     progs, _ = tlc.cached_export('Rename', 'Export_Rename_709.cfg', timeout=3600)
     idx = list(range(len(progs)))
     rng.shuffle(idx)
-    take = 2000 if tier == 'quick' else 40000
+    take = 2000 if tier == 'quick' else 10000
     jobs = [{'id': '709-%d|TT|lc' % k, 'p': progs[k], 'variant': 0, 'opts': {'rl': True, 'rg': True}, 'listcomp': True} for k in sorted(idx[:take])]
     obs = local.pmap(scopegen.observe, jobs, chunksize=64)
     rep.evaluations += len(obs)
